@@ -40,12 +40,40 @@ func (ev *Eval) quant(q *EQuant, m skMode) (string, error) {
 		}
 	}()
 	skolem := (q.All && m == skForall) || (!q.All && m == skExists)
+	wOK := false
+	var w string
+	if !q.All && q.Witness != nil && m == skForall && q.Lo != nil {
+		ev.allowLocals++
+		w0, err := ev.intExpr(q.Witness)
+		ev.allowLocals--
+		// the hint may name a local that does not exist on this path (e.g. an early return):
+		// then the existential is left to the solver
+		if err == nil {
+			w, wOK = w0, true
+		}
+	}
+	if wOK {
+		// an existential to be proved, with a witness hint
+		lo, err := ev.intExpr(q.Lo)
+		if err != nil {
+			return "", err
+		}
+		hi, err := ev.intExpr(q.Hi)
+		if err != nil {
+			return "", err
+		}
+		ev.bound[q.Var] = EVal{T: vt, Terms: []string{w}, Untyped: true}
+		body, err := ev.formula(q.Body, m)
+		if err != nil {
+			return "", err
+		}
+		return and("(<= "+lo+" "+w+")", "(< "+w+" "+hi+")", body), nil
+	}
 	bm := m
 	if !skolem {
+		// a kept quantifier binds its variable universally/existentially for the solver: nothing
+		// under it may be skolemised by a constant any more
 		bm = skNone
-		if q.All && m == skExists || !q.All && m == skForall {
-			bm = m
-		}
 	}
 	// ---- probe: which slice does the variable index?
 	absOff := ""
